@@ -2,6 +2,7 @@
 
 A node is a JSON-able list:
    ["c", 1.5]                      constant
+   ["inf", -1]                     signed infinity (bounds only)
    ["s", name, i, j]               element (i, j) of the declared symbol `name`
    ["t"] ["T"] ["t0"] ["DT"] ["DTc"]   time, horizon, start, integrator step, control-interval length
    ["+", a, b] ["-", a, b] ["*", a, b] ["neg", a] ["sin", a] ["cos", a] ["tanh", a] ["sq", a] ["rat", a]
@@ -72,6 +73,8 @@ def ev(node, env):
     op = node[0]
     if op == "c":
         return node[1]
+    if op == "inf":
+        return float("inf") * node[1]
     if op == "s":
         return env.sym(node[1], node[2], node[3])
     if op == "+":
@@ -124,6 +127,8 @@ def to_ca(node, ctx):
     st = ctx.stage
     if op == "c":
         return ca.MX(node[1])
+    if op == "inf":
+        return ca.MX(float("inf") * node[1])
     if op == "s":
         s = ctx.syms[node[1]]
         if s.shape == (1, 1):
